@@ -1,5 +1,6 @@
 import IceProofs.AgentC04Run
 import IceTie.AgentTiming
+import IceTie.Order
 /-!
 # C04 — connection state follows the documented lifecycle and liveness timing
 
@@ -413,5 +414,54 @@ theorem C04_timing_code :
 example : IceGen.agent_connectionStateForDisconnection 31000000000 30000000000 5000000000 6 = 5 ∧
     IceGen.agent_connectionStateForDisconnection 31000000000 30000000000 5000000000 3 = 6 ∧
     IceGen.agent_initialCheckingTimeout 25000000000 5000000000 false false = 30000000000 := by decide
+
+/-! ## Tie to the code (T, order of effects): `setSelectedPair` and `updateConnectionState` (agent.go) are REGENERATED on every
+run in effect mode; the theorems state the list of effects in program order -/
+
+/-- `Agent.setSelectedPair`: the pair is marked nominated and STORED before the state is updated to Connected (Connected is
+reported only while a selected pair exists), the pair notification follows the state notification, the state is updated once;
+the model's `Agent.select` hands `setConnState .connected` a state that already has the selection -/
+theorem C04_code_setSelectedPair :
+    (∀ isNil, IceGen.agent_setSelectedPair isNil
+      = if isNil then [IceTie.Order.c1 "selectedPair.Store" (IceModel.Val.s "nil")]
+        else [IceModel.Eff.set "pair.nominated" (IceModel.Val.b true), IceTie.Order.c1 "selectedPair.Store" (IceModel.Val.s "pair"),
+              IceTie.Order.c "onConnectedOnce.Do(close onConnected)", IceTie.Order.eConnected,
+              IceTie.Order.c1 "selectedCandidatePairNotifier.Enqueue" (IceModel.Val.s "pair")]) ∧
+    (IceTie.Order.pos (IceGen.agent_setSelectedPair false) (IceTie.Order.c1 "selectedPair.Store" (IceModel.Val.s "pair"))
+        < IceTie.Order.pos (IceGen.agent_setSelectedPair false) IceTie.Order.eConnected ∧
+     IceTie.Order.pos (IceGen.agent_setSelectedPair false) IceTie.Order.eConnected
+        < IceTie.Order.pos (IceGen.agent_setSelectedPair false)
+            (IceTie.Order.c1 "selectedCandidatePairNotifier.Enqueue" (IceModel.Val.s "pair")) ∧
+     (IceGen.agent_setSelectedPair false).count IceTie.Order.eConnected = 1) ∧
+    (∀ (a : Agent) (id : Nat), a.select id =
+      let a1 : Agent := { (a.modPair id fun p => { p with nominated := true }) with selected := some id, onConnectedFired := true }
+      let r := a1.setConnState .connected
+      let ends : Nat × Nat := match r.1.pairById id with
+        | some p => (((r.1.localOf p.l).map (·.addr)).getD 0, ((r.1.remoteOf p.r).map (·.addr)).getD 0)
+        | none => (0, 0)
+      (r.1, r.2 ++ [.cbPair ends.1 ends.2])) :=
+  ⟨IceTie.Order.setSelectedPair_tie, IceTie.Order.setSelectedPair_order, IceTie.Order.select_order⟩
+
+/-- `Agent.updateConnectionState`: nothing on an unchanged state; on Failed the release of the mux ufrag, checklist, pair index,
+pending transactions, selection and candidates comes BEFORE the state is set and notified (Failed only after selection, pairs and
+candidates were released); the model's `setConnState` wipes in the same step -/
+theorem C04_code_updateConnectionState (cur newState : Int64) :
+    IceGen.agent_updateConnectionState cur newState
+      = (if cur == newState then []
+         else (if newState == 5 then IceTie.Order.releaseEffs else [])
+          ++ [IceModel.Eff.set "a.connectionState" (IceModel.Val.i newState.toInt),
+              IceTie.Order.c1 "connectionStateNotifier.Enqueue" (IceModel.Val.i newState.toInt)]) ∧
+    ((cur == 5) = false → ∀ e ∈ IceTie.Order.releaseEffs, IceTie.Order.pos (IceGen.agent_updateConnectionState cur 5) e
+      < IceTie.Order.pos (IceGen.agent_updateConnectionState cur 5)
+          (IceTie.Order.c1 "connectionStateNotifier.Enqueue" (IceModel.Val.i 5))) ∧
+    (∀ (a : Agent) (s : ConnState), a.setConnState s = if a.connState == s then (a, [])
+      else ({ (if s == .failed then a.wipe else a) with connState := s }, [.cbState s])) :=
+  ⟨IceTie.Order.updateConnectionState_tie cur newState, IceTie.Order.updateConnectionState_failed_order cur,
+   IceTie.Order.setConnState_order⟩
+
+example : IceGen.agent_updateConnectionState 3 5
+    = IceTie.Order.releaseEffs ++ [IceModel.Eff.set "a.connectionState" (IceModel.Val.i 5),
+        IceModel.Eff.call "connectionStateNotifier.Enqueue" [IceModel.Val.i 5]] ∧
+    IceGen.agent_updateConnectionState 3 3 = [] ∧ ((3 : Int64) == 5) = false := by decide
 
 end IceProps.C04
